@@ -534,10 +534,50 @@ pub fn run(tier: &str) -> i32 {
             v.push(("a|!b".into(), "a | (!b)".into(), vec![boolk, boolk]));
             v
         };
+        // every binary operator, spelled with and without spaces, between operands of its documented
+        // kinds is accepted (it is one token, and the token is that operator)
+        {
+            let kind = |name: &str| ks.iter().find(|k| k.name == name).unwrap();
+            for op in BIN_OPS {
+                let (l, r, third): (&str, &str, Option<&str>) = match *op {
+                    "&&" | "||" => ("bool", "bool", None),
+                    "@" => ("int iterator", "(int)->int", None),
+                    "?" | "\\" => ("int iterator", "(int)->bool", None),
+                    "$ 0" => ("int iterator", "(int,int)->int", None),
+                    o if o.ends_with('=') && !["==", "!=", "<=", ">="].contains(&o) => ("mut int", "int", None),
+                    _ => ("int", "int", None),
+                };
+                let _ = third;
+                if *op == "$ 0" && !ks.iter().any(|k| k.name == "(int,int)->int") {
+                    continue;
+                }
+                let kk = vec![kind(l), kind(r)];
+                for text in [format!("a {op} b"), format!("a{op}b")] {
+                    if *op == "$ 0" && !text.contains(' ') {
+                        continue;
+                    }
+                    count += 1;
+                    if let Sig::Rejected(msg) = signature(&interp, &text, &kk) {
+                        out.push(Violation {
+                            sig: format!("C14|operator-not-read-as-written|{text}"),
+                            detail: json!({"kind": "precedence", "expression": text, "operand_kinds": [l, r], "outcome": msg}),
+                        });
+                    }
+                }
+            }
+        }
         for (compact, spaced, kk) in &cases {
             count += 2;
             let s1 = signature(&interp, compact, kk);
             let s2 = signature(&interp, spaced, kk);
+            // the operands are of kinds the intended reading accepts: a rejection means the
+            // operator itself is not read as one token
+            if let Sig::Rejected(msg) = &s2 {
+                out.push(Violation {
+                    sig: format!("C14|operator-not-read-as-written|{spaced}"),
+                    detail: json!({"kind": "precedence", "expression": spaced, "outcome": msg}),
+                });
+            }
             if s1 != s2 {
                 out.push(Violation {
                     sig: format!("C14|operator-split|{compact}"),
